@@ -105,4 +105,18 @@ META = {
         note="One injected panic per execution; operations that the property expects to panic anyway are not combined with an injected fault (a second panic while unwinding aborts by language rule). Leaks are permitted and only counted.",
         technique="fault injection at every user-code call site (counted then enumerated) + registry/canary/guard monitors + continued differential use",
     ),
+    "C04": dict(
+        text="All ordered pairs of distinct same-layout element types (and the matching pairs as controls) offered through every checked entry point and value-source kind from every state; the run-time outcome (panic or not, Option answer), the vector before/after, "
+             "and the registry (a rejected value is destroyed exactly once, nothing duplicated) decide. A run without accepted controls is not 'held'. Exploration level.",
+        design_ref="DESIGN.md 3/C04",
+        note="Includes a user-defined AnyValue whose value_typeid() is a run-time field. After a rejected splice only validity is required (registry + continued use).",
+        technique="negative/positive differential probes over type pairs with registry accounting",
+    ),
+    "C12": dict(
+        text="Address arithmetic on every byte/slice/spare view for every layout, backend and (len, capacity) state, with stack-backed vectors constructed in place at every admissible offset of an aligned arena; alignment of the storage pointer also when empty; "
+             "values written through spare views + set_len read back. Known finding D10 (inline storage misaligned for alignment > 8 at some placements) is reported as KNOWN-FINDING per exact (backend, alignment) signature. Exploration level.",
+        design_ref="DESIGN.md 3/C12, 0.1 (D10)",
+        note="At a misaligned placement the harness records the signature and performs no element access there (it would be UB in the harness itself).",
+        technique="address/length arithmetic monitor over placements x layouts x states",
+    ),
 }
